@@ -1251,6 +1251,26 @@ func (g *gen) genInstr(f *hframe, cols []colInfo, bad bool, written map[string]b
 	if len(cols) == 0 && kind >= 4 {
 		kind = r.Intn(4)
 	}
+	// an enum column whose values merge under upper-casing (a, A -> A) takes the remapping branch of the built-in
+	// ToUpper: visit it often, mostly with a destination other than the source (the source must stay what it was)
+	var mergeCol *colInfo
+	if !bad && !g.inFapply && g.opt["noupper"] == "" {
+		for i := range cols {
+			c := cols[i]
+			if c.typ == "e" && len(c.vals) > 1 && !upperInjective(c.vals) && allValid(c.vals) && !written[c.name] && sameCol(f, c) && g.allValidUTF8(f, c) {
+				mergeCol = &cols[i]
+				break
+			}
+		}
+	}
+	if mergeCol != nil && r.P(1, 3) {
+		kind = 7
+		if dst == mergeCol.name && r.P(3, 4) {
+			dst = "u" + mergeCol.name
+			in.DstCol = dst
+			toks[0] = tx.HexS(dst)
+		}
+	}
 	if bad {
 		kind = 10 + r.Intn(4)
 	}
@@ -1370,6 +1390,9 @@ func (g *gen) genInstr(f *hframe, cols []colInfo, bad bool, written map[string]b
 		toks = append(toks, tx.HexS(c.name), "-", "f1", e.id)
 	case kind == 7: // built-in ToUpper on string / enum columns
 		c, ok := pick("se")
+		if mergeCol != nil {
+			c, ok = *mergeCol, true
+		}
 		if !ok || g.opt["noupper"] != "" {
 			v := g.genInt()
 			in.Fn = v
